@@ -75,7 +75,7 @@ theorem presplit_pieces_shorter (m : M) (orig : Tok) (p : Tok × List Tok) (h : 
     cases h; intro t ht; cases ht
 
 /-- the repaired loop header never raises (the `machine.context is None` guard, fix F7) -/
-theorem presplit_ok (m : M) (orig : Tok) : ∃ p, presplit m orig = .ok p := by
+theorem presplit_total (m : M) (orig : Tok) : ∃ p, presplit m orig = .ok p := by
   unfold presplit
   split
   · split
